@@ -34,6 +34,11 @@ func (sc *sliceContainers) Get(key uint64) *Container {
 }
 
 func (sc *sliceContainers) Put(key uint64, c *Container) {
+	// Keep the lookaside in step with the slice: GetOrCreate must not hand
+	// out a container that Put has just replaced.
+	if key == sc.lastKey {
+		sc.lastContainer = c
+	}
 	i := search64(sc.keys, key)
 
 	// If index is negative then there's not an exact match
@@ -65,8 +70,18 @@ func (sc *sliceContainers) PutContainerValues(key uint64, typ byte, n int, mappe
 		c.setN(int32(n))
 		c.setMapped(mapped)
 		sc.containers[i] = c
+		sc.invalidateLast(key)
 	}
 
+}
+
+// invalidateLast drops the lookaside entry for key after the slice was
+// changed without going through Put.
+func (sc *sliceContainers) invalidateLast(key uint64) {
+	if key == sc.lastKey {
+		sc.lastKey = ^uint64(0)
+		sc.lastContainer = nil
+	}
 }
 
 func (sc *sliceContainers) Remove(key uint64) {
@@ -206,6 +221,7 @@ func (sc *sliceContainers) Update(key uint64, fn func(*Container, bool) (*Contai
 		nc, write = fn(sc.containers[i], true)
 		if write {
 			sc.containers[i] = nc
+			sc.invalidateLast(key)
 		}
 	} else {
 		nc, write = fn(nil, false)
@@ -225,6 +241,7 @@ func (sc *sliceContainers) UpdateEvery(fn func(uint64, *Container, bool) (*Conta
 		nc, write := fn(sc.keys[i], c, true)
 		if write {
 			sc.containers[i] = nc
+			sc.invalidateLast(sc.keys[i])
 		}
 	}
 }
